@@ -34,8 +34,9 @@ REGISTRY = dict(
 ALPHABET = seeds.ALPHABET
 
 TIERS = {
-    "quick": dict(maxlen=2, places=seeds.PLACES, maxlen_deep=2, deep_places=[], sq_places=["const", "ann_field"]),
-    "thorough": dict(maxlen=2, places=seeds.PLACES, maxlen_deep=3, deep_places=["const", "ann_field", "ann_type", "include", "default"], sq_places=seeds.PLACES),
+    "quick": dict(maxlen=2, places=seeds.PLACES, maxlen_deep=2, deep_places=[], sq_places=["const", "ann_field"], deep_sq_places=[]),
+    "thorough": dict(maxlen=2, places=seeds.PLACES, maxlen_deep=3, deep_places=["const", "ann_field", "include"], sq_places=seeds.PLACES,
+                     deep_sq_places=["const"]),
 }
 
 GEN_CFG = """INIT Init
@@ -87,6 +88,14 @@ def features(p):
     for d in f["defs"]:
         tags.add(d["k"])
     return "+".join(sorted(tags)) or "empty"
+
+
+MARKERS = ["#OUTQUOTES", "##34;", "\\\"", "&", "\""]
+
+
+def markers(content):
+    """which of the character sequences the dumper treats specially occur in a literal content (class record)"""
+    return "+".join(m for m in MARKERS if m in content) or "-"
 
 
 def where_of(o):
@@ -224,12 +233,12 @@ def run(ctx, args):
         symtxt = "|".join(ALPHABET[i - 1] for i in x["syms"])
         for place in T["places"] if n <= T["maxlen"] else T["deep_places"]:
             for q in ('"', "'"):
-                if q == "'" and (place in ("include", "cpp_include") or place not in T["sq_places"]):
+                if q == "'" and (place in ("include", "cpp_include") or place not in (T["sq_places"] if n <= T["maxlen"] else T["deep_sq_places"])):
                     continue        # lib/idl.py writes include paths in double quotes
                 k += 1
                 p = seeds.literal_program(place, x["atoms"], k, q)
-                progs.append((p, "literal place=%s quote=%s syms=%s" % (place, q, symtxt),
-                              {"family": "literal", "place": place, "quote": q, "syms": symtxt}))
+                progs.append((p, "literal place=%s quote=%s len=%d has=%s" % (place, q, n, markers("".join(x["atoms"]))),
+                              {"family": "literal", "place": place, "has": markers("".join(x["atoms"]))}))
     for k, s in enumerate(shapes):
         p = seeds.service_program(s, k)
         progs.append((p, "function args=%d throws=%d oneway=%s ids=%s" % (s["na"], s["nt"], s["ow"], s["ids"]),
